@@ -1163,7 +1163,7 @@ fn main() {
         return;
     }
     let thorough = tier_is_thorough();
-    let mut n_hist: usize = if thorough { 400_000 } else { 24_000 };
+    let mut n_hist: usize = if thorough { 240_000 } else { 24_000 };
     let mut n_calls: usize = 60;
     let mut threads: usize = 6;
     let mut single: Option<String> = None;
